@@ -72,6 +72,13 @@ fn sids() -> Vec<SId> {
     v.push(SId { a: 7, s: "y".repeat(128) });
     v
 }
+fn bids() -> Vec<BId> {
+    let mut v = Vec::new();
+    for (k, ip) in [[0u8, 0, 0, 0], [127, 0, 0, 1], [128, 255, 250, 251], [255, 255, 255, 255], [10, 1, 2, 3]].iter().enumerate() {
+        v.push(BId { ip: *ip, port: [0u16, 127, 128, 16384, 65535][k], tag: [0u8, 127, 128, 251, 255][k], flag: k % 2 == 0 });
+    }
+    v
+}
 fn nids() -> Vec<NId> {
     let nums = [0u64, 1, 127, 128, 250, 251, 16383, 16384, (1 << 32) - 1, 1 << 32, (1 << 32) + 1, u64::MAX];
     nums.iter().enumerate().map(|(k, a)| NId { a: *a, g: [0u32, 127, 128, 251, u32::MAX][k % 5] }).collect()
@@ -367,6 +374,11 @@ pub fn c20(tier: &str) -> Report {
     }
     one!("postcard / String identity", PostcardCodec, PostcardWire, sids(), false);
     one!("postcard / integer identity", PostcardCodec, PostcardWire, nids(), false);
+    one!("postcard / byte-field identity", PostcardCodec, PostcardWire, bids(), false);
+    let t = one!("bincode standard() / byte-field identity", BincodeCodec(bincode::config::standard()), BincodeWire, bids(), true);
+    if let Some(b) = t.unbounded_len.first() {
+        rep.violate("c20:bincode-byte-identity-length-prefix", format!("fixed-size identity yet the limited decoder reports an unbounded length on {:02x?}", b), json!({"engine": "e3-c20"}));
+    }
     let t = one!("bincode standard() / integer identity", BincodeCodec(bincode::config::standard()), BincodeWire, nids(), true);
     if let Some(b) = t.unbounded_len.first() {
         rep.violate("c20:bincode-integer-identity-length-prefix", format!("integer-only identity yet the limited decoder reports an unbounded length on {:02x?}", b), json!({"engine": "e3-c20"}));
